@@ -1,4 +1,5 @@
 pub mod c07;
+pub mod c19;
 pub mod scen;
 
 use crate::model::Violation;
@@ -12,6 +13,7 @@ pub fn run(ctx: &Ctx) -> i32 {
     }
     match ctx.prop {
         "C07" => return c07::run(ctx),
+        "C19" => return c19::run(ctx),
         _ => {}
     }
     eprintln!("no check registered for {}", ctx.prop);
@@ -24,6 +26,10 @@ pub fn replay(_ctx: &Ctx, kind: &str, input: &Value) -> Result<Vec<Violation>, S
         "case" => {
             let case: crate::scenario::Case = serde_json::from_value(input.clone()).map_err(|e| e.to_string())?;
             Ok(scen::replay(&case))
+        }
+        "c19-cell" => {
+            let cell: c19::Cell = serde_json::from_value(input.clone()).map_err(|e| e.to_string())?;
+            Ok(c19::replay(&cell))
         }
         other => Err(format!("unknown replay kind {other}")),
     }
